@@ -1,5 +1,5 @@
 CONSTANTS
-  Tasks <- T4
+  Tasks <- T6
   MayCancel = TRUE
   Spurious = FALSE
   RecheckUnderLock = TRUE
